@@ -302,3 +302,34 @@ PROPS["C20"] = dict(
     level_text="Byte-for-byte differential of the committed header against the tree's generator on a scratch copy, an independent multiset oracle that does not use the generator, and generated marker edits (300 quick / 4 800 + all files thorough) each required to appear exactly once and to be removable again. Not a proof: it speaks about the current tree and the sampled edit positions.",
     level_note="Trusted: python3, the line filter in py/hyp_c20.py (mirrors the four textual substitutions the generator documents).",
 )
+
+import vfuzz  # noqa: E402
+
+PROPS["C14"] = dict(
+    run=vfuzz.fuzz_check,
+    targets=["pattern", "func", "formatters", "catfilter", "regexp"],
+    builds=[dict(kind="fn", fn=lambda: [vfuzz.build_target(t) for t in ("pattern", "func", "formatters", "catfilter", "regexp")])],
+    engine="fuzz",
+    level="exploration",
+    quick=dict(runs=60000),
+    thorough=dict(secs=600),
+    empty_corpus_runs=300000,
+    rule="evaluations = libFuzzer executions summed over five in-process targets (pattern+message+context+attributes -> PatternFormatter; "
+    "arbitrary function signature -> %{func}/%{function} with a fuzzed format spec; Pretty/JSON/Sentry formatters with arbitrary bytes in text, "
+    "file, function, category, attribute names and values, SDK strings; category-rule string <= 256 B x category <= 256 B x 5 types; regular-expression "
+    "menu x arbitrary message). Strings are decoded as UTF-8 with replacement (well-formed), Latin-1, or raw UTF-16 units (lone surrogates). "
+    "Oracle inside each target: ASan + UBSan (no recovery), library asserts, libFuzzer -timeout=25 (a timeout artifact is re-run 3x alone under 300 s "
+    "and counts only if it never finishes), determinism (same object + same message twice, and a second object of the same pattern), and - for "
+    "well-formed text - strict JSON validity of JSON/Sentry output and no CR/LF in compact JSON. distinct_nontrivial = inputs libFuzzer added to the "
+    "corpus because they reached new coverage (new_units_added). Starting corpora: committed seeds lifted from tests/docs (corpus/), thorough also from an empty corpus.",
+    assumptions=[
+        "message types are the five valid QtMsgType values",
+        "patterns containing a run of >= 6 ASCII digits are skipped and counted (skipped_wide_width): a width of 10^6+ is a resource request of the pattern",
+        "only crash-/leak- artifacts and confirmed hangs count; oom-/slow-unit- are load noise",
+        "-fsanitize=integer is not used (flags well-defined unsigned wrap-around in Qt's inline hashing)",
+        "quick: max_len 4096; thorough: 64 KiB",
+    ],
+    technique="coverage-guided fuzzing (libFuzzer + ASan/UBSan) with structure-aware decoding (FuzzedDataProvider) and in-target oracles: sanitizers, termination, determinism, strict JSON validity",
+    level_text="Coverage-guided fuzzing of every textual input of the formatters and filters, sanitizers and in-target semantic oracles; 300k executions quick, 10 min x 5 targets x 3 workers thorough plus an empty-corpus run. Absence of crashes on the explored inputs only.",
+    level_note="Trusted: clang 14 sanitizer runtimes, libFuzzer, harness/fuzz_targets.cpp, minijson.h. The targets compile only formatters/*.cpp and filters/*.cpp (clang cannot compile the whole library, DESIGN.md 1.2).",
+)
